@@ -260,7 +260,7 @@ func Drive(args []string) int {
 		"evaluations":         merged.Evals,
 		"distinct_nontrivial": distinct,
 		"rule":                p.Rule,
-		"samples":             merged.Samples,
+		"samples":             nonNil(merged.Samples),
 		"exhaustive":          false,
 		"counters":            merged.Cover,
 		"batches":             n,
@@ -566,4 +566,11 @@ func driveReplay(p *Prop, self, raceBin, path, runDir string) int {
 	}
 	fmt.Printf("%s replay: signature %s not reproduced on the current tree\n", p.ID, v.Sig)
 	return 0
+}
+
+func nonNil(s []any) []any {
+	if s == nil {
+		return []any{}
+	}
+	return s
 }
